@@ -15,6 +15,9 @@ use serde_json::{json, Map, Value};
 pub enum Tier {
     Quick,
     Thorough,
+    /// The quick workload shrunk by three to five orders of magnitude: what an interpreter (Miri) or a
+    /// heavy sanitizer can execute. Same oracles, same code paths, tiny counts.
+    Micro,
 }
 
 pub fn verif_dir() -> PathBuf {
@@ -230,7 +233,20 @@ impl Run {
     }
 
     pub fn quick(&self) -> bool {
-        self.tier == Tier::Quick
+        self.tier != Tier::Thorough
+    }
+
+    pub fn micro(&self) -> bool {
+        self.tier == Tier::Micro
+    }
+
+    /// Count for the micro / quick / thorough tier.
+    pub fn n(&self, m: u64, q: u64, t: u64) -> u64 {
+        match self.tier {
+            Tier::Micro => m,
+            Tier::Quick => q,
+            Tier::Thorough => t,
+        }
     }
 
     /// `q` for the quick tier, `t` for thorough.
